@@ -35,17 +35,6 @@ theorem C31_no_value_and_prefix (files : List J) (k k' : Key) (v v' : J)
 
 /-! ## path pre-processing -/
 
-theorem sliceFrom_dotSlash (s : List Char) (h : startsWith ['.', '/'] s = true) :
-    ∃ rest, sliceFrom 2 s = some rest ∧ s = '.' :: '/' :: rest := by
-  match s, h with
-  | c1 :: c2 :: rest, h =>
-    simp only [startsWith, isPrefixOf, Bool.and_eq_true, beq_iff_eq, and_true] at h
-    obtain ⟨h1, h2⟩ := h
-    subst h1; subst h2
-    exact ⟨rest, by simp [sliceFrom, Char.utf8Size], rfl⟩
-  | [], h => simp [startsWith, isPrefixOf] at h
-  | [c], h => simp [startsWith, isPrefixOf] at h
-
 /-- **C31 path expansion never panics.** For every workspace, home directory (present or not),
 environment and every path string — `~`, `~x`, `~é`, the empty string, placeholders, variables —
 `pre_process_path` returns a string (`unsupported` = the model declines to classify a non-ASCII
